@@ -14,7 +14,7 @@ ENGINES = [
     {"name": "harness-agent", "path": "/verif/harness/agent", "serves_properties": ["C01", "C02", "C03", "C04", "C05", "C07", "C08", "C09", "C10", "C11", "C12", "C13", "C14", "C15", "C16", "C18", "C19"],
      "kind_free_text": "cargo crate compiling /repo/proxy_agent/src through symlinks with the verif cfg; drivers: "
                        "function tables, proxy rig (real ProxyServer + mock hosts in a netns), disk, ..."},
-    {"name": "harness-ebpf", "path": "/verif/harness/ebpf", "serves_properties": ["C06", "C07"],
+    {"name": "harness-ebpf", "path": "/verif/harness/ebpf", "serves_properties": ["C03", "C06", "C07"],
      "kind_free_text": "gcc build of the unmodified eBPF C program against shim headers + Rust codec built from ebpf_obj.rs"},
     {"name": "harness-sys", "path": "/verif/harness/sys", "serves_properties": ["C17"],
      "kind_free_text": "mount-namespace wrapper (overlayfs), fake systemctl, stand-in agent; drives the real proxy_agent_setup"},
